@@ -1,5 +1,5 @@
 """C14 - tracked world stays self-consistent under any object update / kill history"""
-from contracts import c14_native, c14_contracts
+from contracts import c14_native, c14_contracts, c14b_contracts
 PID = "C14"
 META = {
     "level": "other",
@@ -8,12 +8,25 @@ META = {
         "left early, an entry is visited iff its key carries the local id and then every future in it is cancelled exactly once "
         "(found the 'break' defect, fixed); RegionObjectsState.resolve_futures - a future of the snapshot is resolved iff it is still "
         "pending, given that set_result raises exactly on a done future, so no InvalidStateError escapes (the fixed defect fails this). "
-        "RegionObjectsState.register_future files the new future under (local id, update type) - the key the other two look under - and returns it. B (bounded, NOT proved): an independent reference model of the scene graph compared after every message with the real "
+        "RegionObjectsState.register_future files the new future under (local id, update type) - the key the other two look under - and returns it. "
+        "Orphanage bookkeeping over the abstract view orph(table, parent id, child id): untrack_object leaves every former child filed "
+        "under the departed object's local id, the object itself no orphan of its parent, its pending requests cancelled (once, for its "
+        "own id) and its id removed from the index; _unparent_object removes exactly the (old parent, object) entry; _parent_object "
+        "files an object whose parent is not tracked under the parent's id (and notes the id as missing) and otherwise inserts it at "
+        "one position of both child lists of the parent; track_object files the object under its own id, links it and re-links every "
+        "collected orphan exactly once; handle_object_reparented breaks the old link and makes the new one. "
+        "B (bounded, NOT proved): an independent reference model of the scene graph compared after every message with the real "
         "ProxyWorldObjectManager / region managers driven through a real Session: every (scene graph, enabled message) pair over a universe "
         "of 3 local ids x 3 full ids x 2 regions + unknown handle (91-message alphabet; quick: ~7.7k of ~16k pairs under full renaming "
         "symmetry, thorough: all ~94.7k pairs), plus seeded random walks of 20-69 steps with terse / cached / property / request steps. "
         "Four genuine defects found and fixed."),
     "trusted_base": [
+        "RegionObjectsState._track_orphan / _untrack_orphan: assumed contracts (add / remove exactly one (parent, child) entry of the "
+        "orphan table - a defaultdict of lists edited in place); the bounded tier compares the table with a reference after every message",
+        "untrack_object / track_object / _parent_object: the internal consistency asserts (a child id is tracked, no child left, not "
+        "already a child) are admitted as AssertionError in the proof; the bounded tier checks that no handler raises",
+        "the child lists (ChildIDs / Children) of the parent are abstracted in _unparent_object / _parent_object: edits are counted "
+        "and their positions compared, list contents are bounded tier",
         "whole-history clause (indices, parent/child/orphan links, futures) is bounded tier only: the handlers mutate dict-of-object "
         "graphs through aliasing that the VC generator does not model",
         "asyncio futures and the event loop are real CPython objects in the bounded tier, externals in the proof",
@@ -23,6 +36,7 @@ META = {
 
 def register(reg):
     c14_contracts.register_p(reg, PID)
+    c14b_contracts.register_p2(reg, PID)
 
 
 BOUNDED = [c14_native.bounded_transitions, c14_native.bounded_random_walks]
